@@ -4,4 +4,5 @@ pub mod model;
 pub mod props;
 pub mod run;
 pub mod sched;
+pub mod sys;
 pub mod util;
